@@ -52,6 +52,15 @@ def _pad(c, n):
 _NUM = (int, float, complex, np.integer, np.floating, np.complexfloating, Fraction)
 
 
+def _real(v):
+    v = complex(v) if not isinstance(v, (int, float)) else v
+    if isinstance(v, complex):
+        if v.imag:
+            raise TypeError("complex operand")
+        return v.real
+    return v
+
+
 class Aff:
     """c: coefficient vector; sp: Space; p: precision taint (1 = the value has
     passed through single-precision storage / a single-precision transform)."""
@@ -212,6 +221,35 @@ class Aff:
             raise TypeError("complex")
         return v.real
 
+    def __mod__(self, o):
+        return Aff.const(_real(self.value()) % _real(o.value() if isinstance(o, Aff) else o), self.sp, self.p)
+
+    def __rmod__(self, o):
+        return Aff.const(_real(o) % _real(self.value()), self.sp, self.p)
+
+    def __floordiv__(self, o):
+        return Aff.const(_real(self.value()) // _real(o.value() if isinstance(o, Aff) else o), self.sp, self.p)
+
+    def __rfloordiv__(self, o):
+        return Aff.const(_real(o) // _real(self.value()), self.sp, self.p)
+
+    def __getattr__(self, name):
+        # numpy's object loops look a ufunc up as a method of the element (x.log(), x.isfinite(), ...):
+        # constants are numbers; of a data-dependent quantity none of these is affine
+        if name.startswith("_") or not hasattr(np, name) or not isinstance(getattr(np, name), np.ufunc):
+            raise AttributeError(name)
+        uf = getattr(np, name)
+
+        def f(*a):
+            v = self.value()  # NonAffine when symbolic
+            v = v.real if v.imag == 0 else v
+            r = uf(v, *a)
+            if isinstance(r, (bool, np.bool_)):
+                return bool(r)
+            return Aff.const(complex(r), self.sp, self.p)
+
+        return f
+
     def __abs__(self):
         # |.| of a data-dependent quantity is not affine (value() raises NonAffine); constants are numbers
         return abs(self.value())
@@ -290,6 +328,54 @@ class SymArr(np.ndarray):
         out.tag = None  # results of arithmetic are fresh (promoted) arrays
         return out
 
+    def __array_ufunc__(self, ufunc, method, *inputs, out=None, **kw):
+        """numpy's own object loops first (they call the Aff methods); where numpy has no object loop for the
+        routine (isfinite, log of plain floats, ...) the routine is applied to the NUMBERS when every operand
+        is a constant, and is a NonAffine event when an operand depends on the data"""
+
+        def base(x):
+            return x.view(np.ndarray) if isinstance(x, SymArr) else x
+
+        ins = tuple(base(x) for x in inputs)
+        if out is not None:
+            kw["out"] = tuple(base(o) for o in out)
+        try:
+            res = getattr(ufunc, method)(*ins, **kw)
+        except TypeError:
+            if out is not None:
+                raise
+            res = _numeric_ufunc(ufunc, method, ins, kw)
+        if out is not None:
+            return out[0] if len(out) == 1 else out
+        if isinstance(res, tuple):
+            return tuple(self._rewrap(r) for r in res)
+        return self._rewrap(res)
+
+    def __array_function__(self, func, types, args, kwargs):
+        try:
+            return super().__array_function__(func, types, args, kwargs)
+        except TypeError:
+            # a numpy routine without an object-dtype path (isclose, allclose, isfinite ...): on numbers when all
+            # operands are constants, a NonAffine event otherwise
+            def num(x):
+                if isinstance(x, (np.ndarray, Aff)):
+                    return _numeric_ufunc(_IDENT, "__call__", (x,), {})
+                if isinstance(x, (list, tuple)):
+                    return type(x)(num(e) for e in x)
+                return x
+
+            return func(*[num(a) for a in args], **{k: num(v) for k, v in kwargs.items()})
+
+    @staticmethod
+    def _rewrap(res):
+        if isinstance(res, np.ndarray) and res.dtype == object:
+            if res.ndim == 0:
+                return res[()]
+            out = res.view(SymArr)
+            out.tag = None
+            return out
+        return res
+
     def fill(self, value):
         p = 1 if self.tag == "c8" else 0
         for idx in np.ndindex(self.shape):
@@ -330,6 +416,42 @@ class SymArr(np.ndarray):
             e = np.ndarray.__getitem__(self, idx)
             out[idx] = e.imag if isinstance(e, (Aff, complex)) else 0.0
         return out.view(SymArr)
+
+
+class _Ident:
+    __name__ = "function"
+
+    @staticmethod
+    def __call__(x):
+        return x
+
+
+_IDENT = _Ident()
+
+
+def _numeric_ufunc(ufunc, method, ins, kw):
+    conv = []
+    for x in ins:
+        if isinstance(x, np.ndarray) and x.dtype == object:
+            flat = []
+            cplx = False
+            for e in x.ravel():
+                if isinstance(e, Aff):
+                    if not e.is_const():
+                        raise NonAffine("numpy.%s of a data-dependent quantity" % ufunc.__name__)
+                    e = e.value()
+                    e = e.real if e.imag == 0 else e
+                cplx = cplx or isinstance(e, complex)
+                flat.append(e)
+            conv.append(np.array(flat, dtype=complex if cplx else float).reshape(x.shape))
+        elif isinstance(x, Aff):
+            if not x.is_const():
+                raise NonAffine("numpy.%s of a data-dependent quantity" % ufunc.__name__)
+            v = x.value()
+            conv.append(v.real if v.imag == 0 else v)
+        else:
+            conv.append(x)
+    return getattr(ufunc, method)(*conv, **kw)
 
 
 def is_sym(x):
